@@ -483,6 +483,8 @@ def load_corpus():
     out = []
     d = os.path.join(core.VERIF, "corpus", "C20")
     for f in sorted(os.listdir(d)) if os.path.isdir(d) else []:
+        if not f.endswith(".txt"):
+            continue
         for line in open(os.path.join(d, f)):
             t = line.split()
             if len(t) >= 4 and not t[0].startswith("#"):
